@@ -256,3 +256,5 @@ pub mod stream;
 pub mod tsig;
 pub mod validator;
 pub mod validator_test;
+#[cfg(feature = "verif-hooks")]
+pub mod verif_rand;
